@@ -363,12 +363,13 @@ def it_enumerate(eng, it):
 
 def it_take(eng, it, k):
     it = deref(it)
-    if is_sym(k):
-        raise Unmodelled("take(symbolic)")
     n = [0]
 
     def nxt(eng):
-        if n[0] >= k:
+        if is_sym(k):
+            if not eng.decide(z3.UGT(k, z3.BitVecVal(n[0], k.size()))):
+                return STOP
+        elif n[0] >= k:
             return STOP
         n[0] += 1
         return it.nxt(eng)
@@ -500,10 +501,25 @@ class Coroutine:
 
     def __init__(s, span, fields, names):
         s.span, s.fields, s.names, s.state = span, fields, names, 0
-        s.extra = {}
+        s.vfields = {}
+        s.poll_fn = None
 
     def __repr__(s):
-        return "{async@%s}" % s.span
+        return "{async@%s state=%d}" % (s.span, s.state)
+
+
+class VariantView:
+    """`(coroutine as variant#k)`: the per-suspension-state fields of a coroutine"""
+
+    def __init__(s, co, k):
+        s.co, s.k = co, k
+
+
+class ReadyFuture:
+    """a future that is ready at its first poll (store model)"""
+
+    def __init__(s, v):
+        s.v = v
 
 
 def register(eng):
@@ -575,6 +591,10 @@ def register(eng):
         if isinstance(x, StrM):
             return StrM(list(x.bytes), True)
         return x
+
+    @model("io::_eprint", "io::_print", "log::__private_api::log", "tracing::event")
+    def _noop(eng, a, callee):
+        return unit()
 
     @model("must_use", "hint::must_use", "convert::identity", "identity", "hint::black_box")
     def _identity(eng, a, callee):
@@ -747,6 +767,16 @@ def register(eng):
         o = opt(r)
         r.set(none())
         return o
+
+    @model("Option::get_or_insert", "Option::get_or_insert_with", "Option::insert")
+    def _(eng, a, c):
+        r = a[0]
+        o = opt(r)
+        if o.variant == "None" or c.rstrip().endswith("::insert"):
+            v = eng.call_callable(a[1], []) if "get_or_insert_with" in c else a[1]
+            o = some(v)
+            r.set(o)
+        return Ref(lambda: o.fields[0], lambda x: o.fields.__setitem__(0, x), "opt")
 
     @model("Option::flatten")
     def _(eng, a, c):
@@ -921,7 +951,7 @@ def register(eng):
 
     def default_for(eng, c):
         t = strip_generics(getattr(eng, "_self_t", "") or "")
-        m = re.match(r"(?:Option|Result)::<(.*)>::unwrap_or_default$", c.strip(), re.S)
+        m = re.search(r"(?:Option|Result)::<(.*)>::unwrap_or_default$", c.strip(), re.S)
         if m:
             from mirparse import split_top
             t = strip_generics(split_top(m.group(1))[0])
@@ -1731,6 +1761,36 @@ def register(eng):
             if eng.decide(e[1]):
                 return some(tup(Ref(lambda e=e: e[0], None, "k"), Ref(lambda e=e: e[2], None, "v")))
         return none()
+
+    # ---- futures: every coroutine runs start-to-finish in one poll (Pending is outside every claim)
+    @model("IntoFuture::into_future")
+    def _(eng, a, c): return a[0]
+
+    @model("Pin::new_unchecked", "Pin::new")
+    def _(eng, a, c): return Agg("Pin", None, 0, [a[0]])
+
+    @model("Pin::as_mut", "Pin::get_mut", "Pin::get_unchecked_mut", "Pin::into_inner")
+    def _(eng, a, c):
+        x = deref(a[0]) if isinstance(a[0], Ref) else a[0]
+        return x if "as_mut" in c else x.fields[0]
+
+    @model("Future::poll")
+    def _(eng, a, c):
+        pin = a[0]
+        target = deref(pin.fields[0]) if isinstance(pin, Agg) else deref(pin)
+        if isinstance(target, BoxV):
+            target = deref(target.v)
+        if isinstance(target, ReadyFuture):
+            return Agg("Poll", "Ready", 0, [target.v])
+        if isinstance(target, Coroutine):
+            fn = eng.fns.get(target.poll_fn)
+            if fn is None:
+                raise Unmodelled("poll function %s not in the dump" % target.poll_fn)
+            r = eng.call_fn(fn, [Agg("Pin", None, 0, [ref_to_value(target)]), a[1]])
+            if deref(r).variant == "Pending":
+                raise Unmodelled("a future returned Pending (outside every claim)")
+            return r
+        raise Unmodelled("poll of %s" % eng.runtime_type(target))
 
     # ---- misc
     @model("mem::take")
